@@ -77,8 +77,15 @@ def _m4():
     cfg['cellmonitors'] = [cellmon.mon_c05]
     cfg['monitors'] = [mastermon.mon_c05_published]
     cfg['allow_nocycle'] = False
+    # a holder evicted in vain (not enough room), then a bigger instance:
+    # the holder comes back in place within the cycle
+    cfg['templates']['big'] = {'memory': '8M', 'cpu': '8%', 'disk': '8M',
+                               'affinity': 'f', 'priority': 60}
+    cfg['templates']['mid'] = {'memory': '8M', 'cpu': '8%', 'disk': '8M',
+                               'affinity': 'm', 'priority': 100}
     cfg['events'] = mastercfg.ev(
-        ('app+', 'id'), ('app-', 0), ('app-', 1),
+        ('app+', 'id'), ('app+', 'big'), ('app+', 'mid'),
+        ('app-', 0), ('app-', 1),
         ('idg', 'g', 1), ('idg', 'g', 2), ('idg', 'g', 3), ('idg', 'g', 0),
         ('noop',), ('restart',),
     )
